@@ -7,12 +7,10 @@ GoIterLemmas — abstract stores, and the exact functional reading of the three 
 1. The loops of the cursor functions are proved for *any* store in which the receiver's five variables hold the
    iterator, so the lemmas below describe `Env.get`/`Env.set` and `iterAt` without looking at the shape of the
    association list (`Env.get_set`, `iterAt_set_ne`, `iterAt_get`, `iterAt_of_gets`, `setIter`).
-2. `advanceLoopG`, `advanceIntoLoopG`, `advanceIterLoopG` thread the *whole* iterator through the NOP-skipping loop
-   exactly as the Go code does (every iteration overwrites `i.t` and `i.cur`).  The hand model's loops
-   (`Iter.advanceLoop` …) thread only the offset and rebuild the iterator from the *initial* one at the exits; the
-   two agree except for the payload register (and, for `AdvanceIter`, the offset) of an iterator that ran off the
-   end of its view after skipping at least one NOP word — see `advanceLoop_eq_G`, `advanceIntoLoop_eq_G`,
-   `advanceIterLoop_eq_G` and the discussion in `GoIter.lean`.
+2. The model's loops (`Iter.advanceLoop` …) take the offset as a separate argument; the Go loops keep it in `i.off`.
+   `advanceLoop_off` … show that the iterator's own offset field is not read, and `advanceLoop_self`,
+   `advanceIntoLoop_self`, `advanceIterLoop_self` unfold `Iter.advanceLoop pj j j.off` into one iteration of the Go
+   loop on the whole iterator `j` (every iteration overwrites `i.off`, `i.t` and `i.cur`).
 3. Calls: `call_calcNext_i`, `call_calcNext_dst`, `call_moveToEnd_i` run the callee's syntax tree on the copied
    frame and copy the fields back (`setIter`).
 -/
@@ -165,444 +163,171 @@ theorem u64_le_zero (x : UInt64) : x ≤ 0 ↔ x = 0 := by
 set_option maxRecDepth 4096 in
 theorem tagToType_end : tagToType 0 = 0 := by decide
 
-/-! ## the loops as Go runs them -/
+/-! ## the model's loops, read with the whole iterator threaded
 
-/-- the loop of `Advance`, threading the whole iterator (offset, tag and payload are overwritten by every iteration) -/
-def advanceLoopG (pj : PJ) (j : Iter) : Res (Iter × Bool) :=
-  if h : j.off >= j.lim then .ok ({ j with addNext := 0, t := tagEnd }, false)
-  else do
-    let v ← Iter.rdT pj j.off
-    if tagOf v == tagNop then
-      if payloadOf v == 0 then
-        .ok (Iter.moveToEnd { j with off := j.off + 1, cur := payloadOf v, t := tagOf v }, false)
-      else advanceLoopG pj { j with off := j.off + 1 + ((payloadOf v).toNat - 1), cur := payloadOf v, t := tagOf v }
-    else .ok ({ j with off := j.off + 1, cur := payloadOf v, t := tagOf v }, true)
-termination_by j.lim - j.off
-decreasing_by all_goals (simp_wf; omega)
+`Iter.advanceLoop pj i off` (and its two siblings) take the offset as a separate argument and never read `i.off`;
+the Go loop keeps the offset in `i.off`.  `advanceLoop_self` … are the unfolding equations of
+`Iter.advanceLoop pj j j.off` in which the recursive call is again of that form: one iteration of the Go loop on the
+iterator `j` (offset, tag and payload are overwritten by every iteration). -/
 
-/-- the loop of `AdvanceInto` -/
-def advanceIntoLoopG (pj : PJ) (j : Iter) : Res (Iter × Bool) :=
-  if h : j.off >= j.lim then .ok ({ j with addNext := 0, t := tagEnd }, false)
-  else do
-    let v ← Iter.rdT pj j.off
-    if tagOf v == tagNop then
-      if hc : payloadOf v == 0 then .ok (Iter.moveToEnd { j with cur := payloadOf v, t := tagOf v }, false)
-      else advanceIntoLoopG pj { j with off := j.off + (payloadOf v).toNat, cur := payloadOf v, t := tagOf v }
-    else .ok ({ j with off := j.off + 1, cur := payloadOf v, t := tagOf v }, true)
-termination_by j.lim - j.off
-decreasing_by
-  have := u64_ne_zero_toNat hc
-  simp_wf; omega
-
-/-- the loop of `AdvanceIter`: `false` = the end of the view was reached exactly -/
-def advanceIterLoopG (pj : PJ) (j : Iter) : Res (Iter × Bool) :=
-  if j.off = j.lim then .ok ({ j with addNext := 0, t := tagEnd }, false)
-  else if _h : j.off > j.lim then .error .generic
-  else do
-    let v ← Iter.rdT pj j.off
-    if tagOf v == tagNop then
-      if payloadOf v == 0 then .error .generic
-      else advanceIterLoopG pj { j with off := j.off + 1 + ((payloadOf v).toNat - 1), cur := payloadOf v, t := tagOf v }
-    else .ok ({ j with off := j.off + 1, cur := payloadOf v, t := tagOf v }, true)
-termination_by j.lim - j.off
-decreasing_by all_goals (simp_wf; omega)
-
-/-- `Advance()` as Go runs it -/
-def advanceG (pj : PJ) (i : Iter) : Res (Iter × UInt8) := do
-  let o ← i.bump
-  let (i', live) ← advanceLoopG pj { i with off := o }
-  if !live then .ok (i', typeNone)
-  else
-    let i'' := i'.calcNext false
-    if i''.addNext < 0 then .ok (i''.moveToEnd, typeNone)
-    else .ok (i'', tagToType i''.t)
-
-/-- `AdvanceInto()` as Go runs it -/
-def advanceIntoG (pj : PJ) (i : Iter) : Res (Iter × UInt8) := do
-  let o ← i.bump
-  let (i', live) ← advanceIntoLoopG pj { i with off := o }
-  if !live then .ok (i', tagEnd)
-  else
-    let i'' := i'.calcNext true
-    if i''.addNext < 0 then .ok (i''.moveToEnd, tagEnd)
-    else .ok (i'', i''.t)
-
-/-- `AdvanceIter(dst)`, `dst ≠ i`, as Go runs it -/
-def advanceIterG (pj : PJ) (i dst : Iter) : Res (Iter × Iter × UInt8) := do
-  let o ← i.bump
-  let (i1, live) ← advanceIterLoopG pj { i with off := o }
-  if !live then .ok (i1, dst, typeNone)
-  else
-    let i2 := i1.calcNext false
-    if i2.addNext < 0 then .error .generic
-    else
-      let iEnd := i2.off + i2.addNext.toNat
-      let typ := tagToType i2.t
-      let d := i2.calcNext true
-      if d.addNext < 0 then .error .generic
-      else if iEnd > d.lim then .error .generic
-      else .ok (i2, { d with lim := iEnd }, typ)
-
-/-! ## the hand model's loops against the loops as Go runs them -/
-
-/-- what the model says of the state Go leaves: on a dead exit (`live = false`) with a non-zero payload register the
-    model has kept the payload of the *initial* iterator -/
-def fixDead (i a : Iter) (live : Bool) : Iter := if live ∨ a.cur = 0 then a else { a with cur := i.cur }
-
-theorem advanceLoop_eq_G (pj : PJ) (i : Iter) : ∀ (n : Nat) (j : Iter), j.lim - j.off ≤ n → j.lim = i.lim →
-    j.addNext = i.addNext → (j.cur = i.cur ∨ j.cur ≠ 0) →
-    Iter.advanceLoop pj i j.off = (advanceLoopG pj j).bind (fun r => .ok (fixDead i r.1 r.2, r.2)) := by
-  have hend : ∀ j : Iter, j.off ≥ j.lim → j.lim = i.lim → j.addNext = i.addNext → (j.cur = i.cur ∨ j.cur ≠ 0) →
-      Iter.advanceLoop pj i j.off = (advanceLoopG pj j).bind (fun r => .ok (fixDead i r.1 r.2, r.2)) := by
-    intro j h' hl ha hc
-    rw [Iter.advanceLoop, advanceLoopG]
-    have h : j.off ≥ i.lim := by omega
-    simp only [h, h', dif_pos, Res.bind, fixDead]
-    by_cases h0 : j.cur = 0
-    · have : i.cur = 0 := by
-        rcases hc with hc | hc
-        · rw [← hc, h0]
-        · exact absurd h0 hc
-      simp [h0, this, hl]
-    · simp [h0, hl]
+/-- the offset field of the iterator handed to the loop is not read -/
+theorem advanceLoop_off (pj : PJ) : ∀ (n : Nat) (i : Iter) (off : Nat), i.lim - off ≤ n →
+    Iter.advanceLoop pj i off = Iter.advanceLoop pj { i with off := off } off := by
   intro n
   induction n with
   | zero =>
-    intro j hn hl ha hc
-    exact hend j (by omega) hl ha hc
+    intro i off hn
+    rw [Iter.advanceLoop.eq_1 pj i off, Iter.advanceLoop.eq_1 pj { i with off := off } off]
+    have h : off ≥ i.lim := by omega
+    simp only [h, dif_pos]
   | succ n ih =>
-    intro j hn hl ha hc
-    by_cases h' : j.off ≥ j.lim
-    · exact hend j h' hl ha hc
-    · rw [Iter.advanceLoop, advanceLoopG]
-      have h : ¬ j.off ≥ i.lim := by omega
-      simp only [h, h', dif_neg, not_false_eq_true, Iter.rdT, rd]
-      cases hr : pj.tape[j.off]? with
-      | none => simp [Res.bind]
+    intro i off hn
+    rw [Iter.advanceLoop.eq_1 pj i off, Iter.advanceLoop.eq_1 pj { i with off := off } off]
+    by_cases h : off ≥ i.lim
+    · simp only [h, dif_pos]
+    · simp only [h, dif_neg, not_false_eq_true, Iter.rdT, rd]
+      cases hr : pj.tape[off]? with
+      | none => rfl
       | some v =>
         simp only [Res.bind_ok]
         by_cases hn' : tagOf v = tagNop
         · by_cases hz : payloadOf v = 0
-          · simp [hn', hz, Res.bind, fixDead, Iter.moveToEnd, hl, ha]
+          · simp [hn', hz]
           · have hz' := payload_toNat_ne v hz
             simp only [hn', hz, beq_self_eq_true, if_true, beq_iff_eq, if_false]
-            have := ih { j with off := j.off + 1 + ((payloadOf v).toNat - 1), cur := payloadOf v, t := tagNop }
-              (by simp only; omega) hl ha (Or.inr hz)
-            simpa using this
+            rw [ih { i with cur := payloadOf v, t := tagNop } _ (by simp only; omega),
+              ih { i with off := off, cur := payloadOf v, t := tagNop } _ (by simp only; omega)]
         · have hb : (tagOf v == tagNop) = false := by simp [hn']
-          simp [hb, Res.bind, fixDead, hl, ha]
+          simp [hb]
 
-
-theorem advanceIntoLoop_eq_G (pj : PJ) (i : Iter) : ∀ (n : Nat) (j : Iter), j.lim - j.off ≤ n → j.lim = i.lim →
-    j.addNext = i.addNext → (j.cur = i.cur ∨ j.cur ≠ 0) →
-    Iter.advanceIntoLoop pj i j.off = (advanceIntoLoopG pj j).bind (fun r => .ok (fixDead i r.1 r.2, r.2)) := by
-  have hend : ∀ j : Iter, j.off ≥ j.lim → j.lim = i.lim → j.addNext = i.addNext → (j.cur = i.cur ∨ j.cur ≠ 0) →
-      Iter.advanceIntoLoop pj i j.off = (advanceIntoLoopG pj j).bind (fun r => .ok (fixDead i r.1 r.2, r.2)) := by
-    intro j h' hl ha hc
-    rw [Iter.advanceIntoLoop, advanceIntoLoopG]
-    have h : j.off ≥ i.lim := by omega
-    simp only [h, h', dif_pos, Res.bind, fixDead]
-    by_cases h0 : j.cur = 0
-    · have : i.cur = 0 := by
-        rcases hc with hc | hc
-        · rw [← hc, h0]
-        · exact absurd h0 hc
-      simp [h0, this, hl]
-    · simp [h0, hl]
+theorem advanceIntoLoop_off (pj : PJ) : ∀ (n : Nat) (i : Iter) (off : Nat), i.lim - off ≤ n →
+    Iter.advanceIntoLoop pj i off = Iter.advanceIntoLoop pj { i with off := off } off := by
   intro n
   induction n with
   | zero =>
-    intro j hn hl ha hc
-    exact hend j (by omega) hl ha hc
+    intro i off hn
+    rw [Iter.advanceIntoLoop.eq_1 pj i off, Iter.advanceIntoLoop.eq_1 pj { i with off := off } off]
+    have h : off ≥ i.lim := by omega
+    simp only [h, dif_pos]
   | succ n ih =>
-    intro j hn hl ha hc
-    by_cases h' : j.off ≥ j.lim
-    · exact hend j h' hl ha hc
-    · rw [Iter.advanceIntoLoop, advanceIntoLoopG]
-      have h : ¬ j.off ≥ i.lim := by omega
-      simp only [h, h', dif_neg, not_false_eq_true, Iter.rdT, rd]
-      cases hr : pj.tape[j.off]? with
-      | none => simp [Res.bind]
+    intro i off hn
+    rw [Iter.advanceIntoLoop.eq_1 pj i off, Iter.advanceIntoLoop.eq_1 pj { i with off := off } off]
+    by_cases h : off ≥ i.lim
+    · simp only [h, dif_pos]
+    · simp only [h, dif_neg, not_false_eq_true, Iter.rdT, rd]
+      cases hr : pj.tape[off]? with
+      | none => rfl
       | some v =>
         simp only [Res.bind_ok]
         by_cases hn' : tagOf v = tagNop
         · by_cases hz : payloadOf v = 0
-          · simp [hn', hz, Res.bind, fixDead, Iter.moveToEnd, hl, ha]
+          · simp [hn', hz]
           · have hz' := payload_toNat_ne v hz
             simp only [hn', hz, beq_self_eq_true, if_true, beq_iff_eq, if_false, dite_false, dif_neg, not_false_eq_true]
-            have := ih { j with off := j.off + (payloadOf v).toNat, cur := payloadOf v, t := tagNop }
-              (by simp only; omega) hl ha (Or.inr hz)
-            simpa using this
+            rw [ih { i with cur := payloadOf v, t := tagNop } _ (by simp only; omega),
+              ih { i with off := off, cur := payloadOf v, t := tagNop } _ (by simp only; omega)]
         · have hb : (tagOf v == tagNop) = false := by simp [hn']
-          simp [hb, Res.bind, fixDead, hl, ha]
+          simp [hb]
 
-theorem advanceIterLoop_eq_G (pj : PJ) (i : Iter) : ∀ (n : Nat) (j : Iter), j.lim - j.off ≤ n → j.lim = i.lim →
-    j.addNext = i.addNext →
-    Iter.advanceIterLoop pj i j.off = (advanceIterLoopG pj j).bind (fun r => .ok (if r.2 then some r.1 else none)) := by
-  have hend : ∀ j : Iter, j.off ≥ j.lim → j.lim = i.lim → j.addNext = i.addNext →
-      Iter.advanceIterLoop pj i j.off =
-        (advanceIterLoopG pj j).bind (fun r => .ok (if r.2 then some r.1 else none)) := by
-    intro j h' hl ha
-    rw [Iter.advanceIterLoop, advanceIterLoopG]
-    by_cases he : j.off = j.lim
-    · simp [he, ← hl, Res.bind]
-    · have h1 : ¬ j.off = i.lim := by omega
-      have h2 : j.off > i.lim := by omega
-      have h3 : j.off > j.lim := by omega
-      simp [he, h1, h2, h3, Res.bind]
+theorem advanceIterLoop_off (pj : PJ) : ∀ (n : Nat) (i : Iter) (off : Nat), i.lim - off ≤ n →
+    Iter.advanceIterLoop pj i off = Iter.advanceIterLoop pj { i with off := off } off := by
   intro n
   induction n with
   | zero =>
-    intro j hn hl ha
-    exact hend j (by omega) hl ha
+    intro i off hn
+    rw [Iter.advanceIterLoop.eq_1 pj i off, Iter.advanceIterLoop.eq_1 pj { i with off := off } off]
+    by_cases he : off = i.lim
+    · simp only [he, if_true]
+    · have h : off > i.lim := by omega
+      simp only [he, h, if_false, dif_pos]
   | succ n ih =>
-    intro j hn hl ha
-    by_cases h' : j.off ≥ j.lim
-    · exact hend j h' hl ha
-    · rw [Iter.advanceIterLoop, advanceIterLoopG]
-      have h1 : ¬ j.off = i.lim := by omega
-      have h2 : ¬ j.off > i.lim := by omega
-      have h3 : ¬ j.off = j.lim := by omega
-      have h4 : ¬ j.off > j.lim := by omega
-      simp only [h1, h2, h3, h4, if_false, dif_neg, not_false_eq_true, Iter.rdT, rd]
-      cases hr : pj.tape[j.off]? with
-      | none => simp [Res.bind]
-      | some v =>
+    intro i off hn
+    rw [Iter.advanceIterLoop.eq_1 pj i off, Iter.advanceIterLoop.eq_1 pj { i with off := off } off]
+    by_cases he : off = i.lim
+    · simp only [he, if_true]
+    · by_cases h : off > i.lim
+      · simp only [he, h, if_false, dif_pos]
+      · simp only [he, h, if_false, dif_neg, not_false_eq_true, Iter.rdT, rd]
+        cases hr : pj.tape[off]? with
+        | none => rfl
+        | some v =>
+          simp only [Res.bind_ok]
+          by_cases hn' : tagOf v = tagNop
+          · by_cases hz : payloadOf v = 0
+            · simp [hn', hz]
+            · have hz' := payload_toNat_ne v hz
+              simp only [hn', hz, beq_self_eq_true, if_true, beq_iff_eq, if_false]
+              rw [ih { i with cur := payloadOf v, t := tagNop } _ (by simp only; omega),
+                ih { i with off := off, cur := payloadOf v, t := tagNop } _ (by simp only; omega)]
+          · have hb : (tagOf v == tagNop) = false := by simp [hn']
+            simp [hb]
+
+/-- one iteration of the loop of `Advance` on the iterator `j` -/
+theorem advanceLoop_self (pj : PJ) (j : Iter) : Iter.advanceLoop pj j j.off =
+    (if h : j.off >= j.lim then .ok ({ j with addNext := 0, t := tagEnd }, false)
+    else do
+      let v ← Iter.rdT pj j.off
+      if tagOf v == tagNop then
+        if payloadOf v == 0 then
+          .ok (Iter.moveToEnd { j with off := j.off + 1, cur := payloadOf v, t := tagOf v }, false)
+        else Iter.advanceLoop pj { j with off := j.off + 1 + ((payloadOf v).toNat - 1), cur := payloadOf v, t := tagOf v } (j.off + 1 + ((payloadOf v).toNat - 1))
+      else .ok ({ j with off := j.off + 1, cur := payloadOf v, t := tagOf v }, true)) := by
+  rw [Iter.advanceLoop.eq_1 pj j j.off]
+  by_cases h : j.off ≥ j.lim
+  · simp only [h, dif_pos]
+  · simp only [h, dif_neg, not_false_eq_true]
+    cases hr : Iter.rdT pj j.off with
+    | ok v =>
+      simp only [Res.bind_ok]
+      rw [advanceLoop_off pj _ { j with cur := payloadOf v, t := tagOf v } _ (Nat.le_refl _)]
+    | error e => rfl
+    | panic => rfl
+    | diverge => rfl
+
+/-- one iteration of the loop of `AdvanceInto` on the iterator `j` -/
+theorem advanceIntoLoop_self (pj : PJ) (j : Iter) : Iter.advanceIntoLoop pj j j.off =
+    (if h : j.off >= j.lim then .ok ({ j with addNext := 0, t := tagEnd }, false)
+    else do
+      let v ← Iter.rdT pj j.off
+      if tagOf v == tagNop then
+        if hc : payloadOf v == 0 then .ok (Iter.moveToEnd { j with cur := payloadOf v, t := tagOf v }, false)
+        else Iter.advanceIntoLoop pj { j with off := j.off + (payloadOf v).toNat, cur := payloadOf v, t := tagOf v } (j.off + (payloadOf v).toNat)
+      else .ok ({ j with off := j.off + 1, cur := payloadOf v, t := tagOf v }, true)) := by
+  rw [Iter.advanceIntoLoop.eq_1 pj j j.off]
+  by_cases h : j.off ≥ j.lim
+  · simp only [h, dif_pos]
+  · simp only [h, dif_neg, not_false_eq_true]
+    cases hr : Iter.rdT pj j.off with
+    | ok v =>
+      simp only [Res.bind_ok]
+      rw [advanceIntoLoop_off pj _ { j with cur := payloadOf v, t := tagOf v } _ (Nat.le_refl _)]
+    | error e => rfl
+    | panic => rfl
+    | diverge => rfl
+
+/-- one iteration of the loop of `AdvanceIter` on the iterator `j` -/
+theorem advanceIterLoop_self (pj : PJ) (j : Iter) : Iter.advanceIterLoop pj j j.off =
+    (if j.off = j.lim then .ok ({ j with addNext := 0, t := tagEnd }, false)
+    else if _h : j.off > j.lim then .error .generic
+    else do
+      let v ← Iter.rdT pj j.off
+      if tagOf v == tagNop then
+        if payloadOf v == 0 then .error .generic
+        else Iter.advanceIterLoop pj { j with off := j.off + 1 + ((payloadOf v).toNat - 1), cur := payloadOf v, t := tagOf v } (j.off + 1 + ((payloadOf v).toNat - 1))
+      else .ok ({ j with off := j.off + 1, cur := payloadOf v, t := tagOf v }, true)) := by
+  rw [Iter.advanceIterLoop.eq_1 pj j j.off]
+  by_cases he : j.off = j.lim
+  · simp only [he, if_true]
+  · by_cases h : j.off > j.lim
+    · simp only [he, h, if_false, dif_pos]
+    · simp only [he, h, if_false, dif_neg, not_false_eq_true]
+      cases hr : Iter.rdT pj j.off with
+      | ok v =>
         simp only [Res.bind_ok]
-        by_cases hn' : tagOf v = tagNop
-        · by_cases hz : payloadOf v = 0
-          · simp [hn', hz, Res.bind]
-          · have hz' := payload_toNat_ne v hz
-            simp only [hn', hz, beq_self_eq_true, if_true, beq_iff_eq, if_false]
-            have := ih { j with off := j.off + 1 + ((payloadOf v).toNat - 1), cur := payloadOf v, t := tagNop }
-              (by simp only; omega) hl ha
-            simpa using this
-        · have hb : (tagOf v == tagNop) = false := by simp [hn']
-          simp [hb, Res.bind, hl, ha]
-
-/-- the payload register that Go's NOP-skipping loop leaves on a dead exit is the one the model keeps: it is `0`
-    (a zero-skip NOP word) or the initial payload (no NOP word was skipped before the end of the view) -/
-def DeadCurAgrees (loop : PJ → Iter → Res (Iter × Bool)) (pj : PJ) (i : Iter) : Prop :=
-  ∀ o a, i.bump = .ok o → loop pj { i with off := o } = .ok (a, false) → a.cur = 0 ∨ a.cur = i.cur
-
-theorem fixDead_of (i a : Iter) (h : a.cur = 0 ∨ a.cur = i.cur) : fixDead i a false = a := by
-  unfold fixDead
-  rcases h with h | h
-  · simp [h]
-  · by_cases h0 : a.cur = 0
-    · simp [h0]
-    · simp only [Bool.false_eq_true, h0, or_self, if_false, ← h]
-
-theorem advance_eq_G (pj : PJ) (i : Iter) (h : DeadCurAgrees advanceLoopG pj i) : i.advance pj = advanceG pj i := by
-  unfold Iter.advance advanceG
-  cases hb : i.bump with
-  | ok o =>
-    simp only [Res.bind_ok]
-    have hL := advanceLoop_eq_G pj i _ { i with off := o } (Nat.le_refl _) rfl rfl (Or.inl rfl)
-    simp only at hL
-    rw [hL]
-    cases hg : advanceLoopG pj { i with off := o } with
-    | ok r =>
-      obtain ⟨a, l⟩ := r
-      cases l with
-      | true => simp [Res.bind, fixDead]
-      | false => simp [Res.bind, fixDead_of i a (h o a hb hg)]
-    | error e => rfl
-    | panic => rfl
-    | diverge => rfl
-  | error e => rfl
-  | panic => rfl
-  | diverge => rfl
-
-theorem advanceInto_eq_G (pj : PJ) (i : Iter) (h : DeadCurAgrees advanceIntoLoopG pj i) :
-    i.advanceInto pj = advanceIntoG pj i := by
-  unfold Iter.advanceInto advanceIntoG
-  cases hb : i.bump with
-  | ok o =>
-    simp only [Res.bind_ok]
-    have hL := advanceIntoLoop_eq_G pj i _ { i with off := o } (Nat.le_refl _) rfl rfl (Or.inl rfl)
-    simp only at hL
-    rw [hL]
-    cases hg : advanceIntoLoopG pj { i with off := o } with
-    | ok r =>
-      obtain ⟨a, l⟩ := r
-      cases l with
-      | true => simp [Res.bind, fixDead]
-      | false => simp [Res.bind, fixDead_of i a (h o a hb hg)]
-    | error e => rfl
-    | panic => rfl
-    | diverge => rfl
-  | error e => rfl
-  | panic => rfl
-  | diverge => rfl
-
-/-- `Advance`/`AdvanceInto` without a hypothesis: the model and Go agree on the returned value and on the iterator up
-    to the payload register of an iterator that is at its end -/
-def RelDead (i : Iter) (g m : Res (Iter × UInt8)) : Prop :=
-  match g, m with
-  | .ok (a, x), .ok (b, y) => x = y ∧ (b = a ∨ (a.t = tagEnd ∧ b = { a with cur := i.cur }))
-  | .panic, .panic => True
-  | .error _, .error _ => True
-  | .diverge, .diverge => True
-  | _, _ => False
-
-theorem advanceLoopG_dead (pj : PJ) : ∀ (n : Nat) (j a : Iter), j.lim - j.off ≤ n → advanceLoopG pj j = .ok (a, false) →
-    a.t = tagEnd := by
-  intro n
-  induction n with
-  | zero =>
-    intro j a hn h
-    rw [advanceLoopG] at h
-    have h' : j.off ≥ j.lim := by omega
-    simp only [h', dif_pos, Res.ok.injEq, Prod.mk.injEq, and_true] at h
-    rw [← h]
-  | succ n ih =>
-    intro j a hn h
-    rw [advanceLoopG] at h
-    by_cases h' : j.off ≥ j.lim
-    · simp only [h', dif_pos, Res.ok.injEq, Prod.mk.injEq, and_true] at h
-      rw [← h]
-    · simp only [h', dif_neg, not_false_eq_true, Iter.rdT, rd] at h
-      cases hr : pj.tape[j.off]? with
-      | none => simp [hr, Res.bind] at h
-      | some v =>
-        simp only [hr, Res.bind_ok] at h
-        by_cases hn' : tagOf v = tagNop
-        · by_cases hz : payloadOf v = 0
-          · simp [hn', hz, Iter.moveToEnd] at h
-            rw [← h]
-          · have hz' := payload_toNat_ne v hz
-            simp only [hn', hz, beq_self_eq_true, if_true, beq_iff_eq, if_false] at h
-            exact ih _ a (by simp only; omega) h
-        · have hb : (tagOf v == tagNop) = false := by simp [hn']
-          simp [hb] at h
-
-theorem advanceIntoLoopG_dead (pj : PJ) : ∀ (n : Nat) (j a : Iter), j.lim - j.off ≤ n →
-    advanceIntoLoopG pj j = .ok (a, false) → a.t = tagEnd := by
-  intro n
-  induction n with
-  | zero =>
-    intro j a hn h
-    rw [advanceIntoLoopG] at h
-    have h' : j.off ≥ j.lim := by omega
-    simp only [h', dif_pos, Res.ok.injEq, Prod.mk.injEq, and_true] at h
-    rw [← h]
-  | succ n ih =>
-    intro j a hn h
-    rw [advanceIntoLoopG] at h
-    by_cases h' : j.off ≥ j.lim
-    · simp only [h', dif_pos, Res.ok.injEq, Prod.mk.injEq, and_true] at h
-      rw [← h]
-    · simp only [h', dif_neg, not_false_eq_true, Iter.rdT, rd] at h
-      cases hr : pj.tape[j.off]? with
-      | none => simp [hr, Res.bind] at h
-      | some v =>
-        simp only [hr, Res.bind_ok] at h
-        by_cases hn' : tagOf v = tagNop
-        · by_cases hz : payloadOf v = 0
-          · simp [hn', hz, Iter.moveToEnd] at h
-            rw [← h]
-          · have hz' := payload_toNat_ne v hz
-            simp only [hn', hz, beq_self_eq_true, if_true, beq_iff_eq, if_false, dite_false, dif_neg,
-              not_false_eq_true] at h
-            exact ih _ a (by simp only; omega) h
-        · have hb : (tagOf v == tagNop) = false := by simp [hn']
-          simp [hb] at h
-
-theorem fixDead_rel (i a : Iter) : fixDead i a false = a ∨ fixDead i a false = { a with cur := i.cur } := by
-  unfold fixDead
-  by_cases h0 : a.cur = 0
-  · simp [h0]
-  · simp [h0]
-
-theorem advance_rel_G (pj : PJ) (i : Iter) : RelDead i (advanceG pj i) (i.advance pj) := by
-  unfold Iter.advance advanceG
-  cases hb : i.bump with
-  | ok o =>
-    simp only [Res.bind_ok]
-    have hL := advanceLoop_eq_G pj i _ { i with off := o } (Nat.le_refl _) rfl rfl (Or.inl rfl)
-    simp only at hL
-    rw [hL]
-    cases hg : advanceLoopG pj { i with off := o } with
-    | ok r =>
-      obtain ⟨a, l⟩ := r
-      cases l with
-      | true =>
-        simp only [Res.bind, fixDead, true_or, if_true, Res.bind_ok, Bool.not_true, Bool.false_eq_true, if_false]
-        split <;> simp [RelDead]
-      | false =>
-        have ht := advanceLoopG_dead pj _ _ a (Nat.le_refl _) hg
-        simp only [Res.bind, Res.bind_ok, Bool.not_false, if_true, RelDead, true_and]
-        rcases fixDead_rel i a with h | h
-        · exact Or.inl h
-        · exact Or.inr ⟨ht, h⟩
-    | error e => simp [Res.bind, RelDead]
-    | panic => simp [Res.bind, RelDead]
-    | diverge => simp [Res.bind, RelDead]
-  | error e => simp [RelDead]
-  | panic => simp [RelDead]
-  | diverge => simp [RelDead]
-
-theorem advanceInto_rel_G (pj : PJ) (i : Iter) : RelDead i (advanceIntoG pj i) (i.advanceInto pj) := by
-  unfold Iter.advanceInto advanceIntoG
-  cases hb : i.bump with
-  | ok o =>
-    simp only [Res.bind_ok]
-    have hL := advanceIntoLoop_eq_G pj i _ { i with off := o } (Nat.le_refl _) rfl rfl (Or.inl rfl)
-    simp only at hL
-    rw [hL]
-    cases hg : advanceIntoLoopG pj { i with off := o } with
-    | ok r =>
-      obtain ⟨a, l⟩ := r
-      cases l with
-      | true =>
-        simp only [Res.bind, fixDead, true_or, if_true, Res.bind_ok, Bool.not_true, Bool.false_eq_true, if_false]
-        split <;> simp [RelDead]
-      | false =>
-        have ht := advanceIntoLoopG_dead pj _ _ a (Nat.le_refl _) hg
-        simp only [Res.bind, Res.bind_ok, Bool.not_false, if_true, RelDead, true_and]
-        rcases fixDead_rel i a with h | h
-        · exact Or.inl h
-        · exact Or.inr ⟨ht, h⟩
-    | error e => simp [Res.bind, RelDead]
-    | panic => simp [Res.bind, RelDead]
-    | diverge => simp [Res.bind, RelDead]
-  | error e => simp [RelDead]
-  | panic => simp [RelDead]
-  | diverge => simp [RelDead]
-
-/-- `AdvanceIter` reports the end of the view (`TypeNone, nil`) only where the cursor already stood: no NOP word was
-    skipped on the way.  (Otherwise Go leaves `i.off = len(tape)` and the last NOP payload in `i.cur`, while the
-    model's `{ i with off := o, addNext := 0, t := tagEnd }` keeps the offset before the NOP words.) -/
-def EndAtStart (pj : PJ) (i : Iter) : Prop :=
-  ∀ o, i.bump = .ok o → Iter.advanceIterLoop pj i o = .ok none → o = i.lim
-
-theorem advanceIter_eq_G (pj : PJ) (i dst : Iter) (h : EndAtStart pj i) :
-    i.advanceIter pj dst = advanceIterG pj i dst := by
-  unfold Iter.advanceIter advanceIterG
-  cases hb : i.bump with
-  | ok o =>
-    simp only [Res.bind_ok]
-    have hL := advanceIterLoop_eq_G pj i _ { i with off := o } (Nat.le_refl _) rfl rfl
-    simp only at hL
-    have h' := h o hb
-    rw [hL] at h' ⊢
-    cases hg : advanceIterLoopG pj { i with off := o } with
-    | ok r =>
-      obtain ⟨a, l⟩ := r
-      cases l with
-      | true => simp [Res.bind]
-      | false =>
-        have ho : o = i.lim := h' (by simp [hg, Res.bind])
-        rw [advanceIterLoopG] at hg
-        simp only [ho, if_true, Res.ok.injEq, Prod.mk.injEq, and_true] at hg
-        simp [Res.bind, ← hg, ho]
-    | error e => rfl
-    | panic => rfl
-    | diverge => rfl
-  | error e => rfl
-  | panic => rfl
-  | diverge => rfl
+        rw [advanceIterLoop_off pj _ { j with cur := payloadOf v, t := tagOf v } _ (Nat.le_refl _)]
+      | error e => rfl
+      | panic => rfl
+      | diverge => rfl
 
 /-! ## calls -/
 section calls
